@@ -271,7 +271,9 @@ void fill_base(Rng &g, Scn &s, int Tmax_small) {
   Bytes key(16);
   g.bytes(key.data(), 16);
   s.b["key"] = key;
-  size_t sl = g.chance(0.1) ? (g.chance(0.5) ? 0 : 255) : 1 + g.below(24);
+  // seed lengths: mostly short; sometimes the edges that matter for a hashed, length-scanned C string
+  static const size_t edge[] = {0, 1, 55, 56, 63, 64, 65, 119, 120, 255, 256, 257, 263, 300, 511, 512, 1000};
+  size_t sl = g.chance(0.2) ? edge[g.below(sizeof edge / sizeof edge[0])] : 1 + g.below(24);
   Bytes seed(sl);
   for (auto &c : seed) c = (uint8_t)(1 + g.below(255));
   s.b["seedstr"] = seed;
